@@ -27,6 +27,14 @@ fn build(args: BuildArgs) -> anyhow::Result<Option<usize>> {
         &dumb_console
     };
 
+    #[cfg(n2_verif)]
+    let verif_progress = crate::verif::take_progress();
+    #[cfg(n2_verif)]
+    let progress: &dyn Progress = match &verif_progress {
+        Some(p) => &**p,
+        None => progress,
+    };
+
     let build_filename = args.build_filename.as_deref().unwrap_or("build.ninja");
     let mut state = trace::scope("load::read", || load::read(build_filename))?;
     let mut work = work::Work::new(
@@ -96,6 +104,23 @@ fn build(args: BuildArgs) -> anyhow::Result<Option<usize>> {
     }
     // Include any tasks from initial build in final count of steps.
     Ok(Some(tasks_run + work.tasks_run))
+}
+
+/// Verification hook: run `build` with explicit arguments instead of `std::env::args`.
+#[cfg(n2_verif)]
+pub(crate) fn verif_build(
+    build_filename: Option<String>,
+    targets: Vec<String>,
+    options: work::Options,
+    verbose: bool,
+) -> anyhow::Result<Option<usize>> {
+    build(BuildArgs {
+        fake_ninja_compat: false,
+        options,
+        build_filename,
+        targets,
+        verbose,
+    })
 }
 
 fn default_parallelism() -> anyhow::Result<usize> {
